@@ -65,6 +65,14 @@ class BodyMacroGen:
         return v
 
     def expr(self, avail):
+        if self.rng.random() < 0.5:
+            # a nested expression (gen/c08_args.py): the variables at top level / inside delimiter groups, any depth
+            from . import c08_args
+            self.feats.add("nested_expression_in_macro_body")
+            t = c08_args.rand_xterm(self.rng, avail)
+            for v in t[2]:
+                self.used.add(str(v))
+            return t
         f = self.rng.choice(sorted(dl.FUNS))
         if f == "asi32":
             f = "incs"
@@ -335,9 +343,12 @@ def head_macro(rng, k, lower):
                 args.append(tv(rng.choice(ins)))
             elif u < 0.75 and es:
                 args.append(tv(rng.choice(es)))
-            elif u < 0.88:
+            elif u < 0.82:
                 f = rng.choice(["incs", "addm", "mod3", "decs", "max2"])
                 args.append(["f", f, [rng.choice(ins) for _ in range(dl.FUNS[f][1])]])
+            elif u < 0.88:
+                from . import c08_args
+                args.append(c08_args.rand_xterm(rng, ins))
             else:
                 args.append(["c", rng.choice(DOM)])
         items.append(["clause", name, args, []])
@@ -362,7 +373,7 @@ def _idents_var(v):
 def _idents_term(t):
     if t[0] == "v":
         return _idents_var(t[1])
-    if t[0] == "f":
+    if t[0] in ("f", "x"):
         return [x for v in t[2] for x in _idents_var(v)]
     return []
 
@@ -450,6 +461,9 @@ class RuleGen:
         return rng.choice(cands)
 
     def expr(self):
+        if self.rng.random() < 0.5:
+            from . import c08_args
+            return c08_args.rand_xterm(self.rng, self.bound)
         f = self.rng.choice(["incs", "addm", "mod3", "decs", "max2"])
         return ["f", f, [self.rng.choice(self.bound) for _ in range(dl.FUNS[f][1])]]
 
@@ -517,7 +531,14 @@ class RuleGen:
                     if u < 0.4 and self.bound:
                         acts.append(tv(rng.choice(self.bound)))
                     elif u < 0.7 and self.bound:
-                        acts.append(self.expr())
+                        like = [v for v in self.bound if v[1] in self.sigs[j]["locals"]]
+                        if like and rng.random() < 0.6:
+                            # an expression over a call-site variable spelled like a local of the invoked macro
+                            from . import c08_args
+                            acts.append(c08_args.rand_xterm(rng, like))
+                            self.feats.add("expression_actual_over_variable_spelled_like_macro_local")
+                        else:
+                            acts.append(self.expr())
                     else:
                         acts.append(["c", rng.choice(DOM)])
             if not ok:
